@@ -1,8 +1,10 @@
 package serve
 
 import (
+	"bytes"
 	"compress/gzip"
 	"compress/zlib"
+	"io"
 	"sync"
 
 	restful "github.com/emicklei/go-restful/v3"
@@ -59,19 +61,35 @@ func (l *Ledger) AcquireGzipWriter() *gzip.Writer {
 	l.out(w)
 	return w
 }
-func (l *Ledger) ReleaseGzipWriter(w *gzip.Writer) { l.in(w); l.inner.ReleaseGzipWriter(w) }
+
+// A released object belongs to the provider, which may reuse it at once: the ledger points it at a
+// throw-away sink before handing it back, so that any use AFTER release (a trailer written by a late
+// Close, a body read through a released reader) is lost instead of silently working.
+func (l *Ledger) ReleaseGzipWriter(w *gzip.Writer) {
+	l.in(w)
+	w.Reset(io.Discard)
+	l.inner.ReleaseGzipWriter(w)
+}
 func (l *Ledger) AcquireGzipReader() *gzip.Reader {
 	r := l.inner.AcquireGzipReader()
 	l.out(r)
 	return r
 }
-func (l *Ledger) ReleaseGzipReader(r *gzip.Reader) { l.in(r); l.inner.ReleaseGzipReader(r) }
+func (l *Ledger) ReleaseGzipReader(r *gzip.Reader) {
+	l.in(r)
+	r.Reset(bytes.NewReader(nil))
+	l.inner.ReleaseGzipReader(r)
+}
 func (l *Ledger) AcquireZlibWriter() *zlib.Writer {
 	w := l.inner.AcquireZlibWriter()
 	l.out(w)
 	return w
 }
-func (l *Ledger) ReleaseZlibWriter(w *zlib.Writer) { l.in(w); l.inner.ReleaseZlibWriter(w) }
+func (l *Ledger) ReleaseZlibWriter(w *zlib.Writer) {
+	l.in(w)
+	w.Reset(io.Discard)
+	l.inner.ReleaseZlibWriter(w)
+}
 
 // Install makes a fresh ledger around the named provider the package's current provider.
 func Install(provider string) *Ledger {
